@@ -24,7 +24,7 @@ ID = "C10"
 LEVEL = "model_checking"
 RULE = (
     "state = (concrete object graph of the world incl. shared scorers, reference-model state, skchange module "
-    "globals), de-duplicated on a structural hash; transition = one public call (fit / update / predict / transform / "
+    "globals), de-duplicated on a structural hash; transition = one public call (fit / fit_predict / update / predict / transform / "
     "transform_scores / scorer.fit / scorer.evaluate / set_params incl. nested keys and scorer replacement / clone / "
     "get_params) executed on the real objects. ALL event sequences up to the stated depth are explored per world "
     "(BFS). evaluations = transitions; distinct_nontrivial = distinct states reached in which at least one object "
@@ -257,6 +257,8 @@ def events_for(objs, cfg):
             for d in data:
                 ev.append(("fit", name, d))
                 ev.append(("predict", name, d))
+            for d in data[:2]:
+                ev.append(("fitpredict", name, d))
             ev.append(("transform", name, data[0]))
             ev.append(("tscores", name, data[1]))
             ev.append(("update", name, "U"))
@@ -336,7 +338,7 @@ class Explorer:
         case = {"world": self.wname, "history": [ev_json(e) for e in path + [ev]]}
         key = {"world": self.wname, "event": kind}
         names = {id(o): n for n, o in world.items()}
-        before = {n: params_canon(o, names) for n, o in world.items()} if kind in ("fit", "predict", "transform", "tscores", "update", "sfit", "eval", "getp") else None
+        before = {n: params_canon(o, names) for n, o in world.items()} if kind in ("fit", "fitpredict", "predict", "transform", "tscores", "update", "sfit", "eval", "getp") else None
 
         def real(f):
             try:
@@ -351,6 +353,16 @@ class Explorer:
             want = self.pristine(model, name, m.fitted, m.fitdata, method, ev[2])
             self.compare(case, key, got, want, f"{name}.{method}({ev[2]})")
             self.touch_shared(model, m, ev[2])
+            self.outputs.add(hashlib.md5(repr(got).encode()).hexdigest())
+        elif kind == "fitpredict":
+            got = real(lambda: H.canon_value(obj.fit_predict(DATA[ev[2]])))
+            want = self.pristine(model, name, True, ev[2], "predict", ev[2])
+            self.compare(case, key, got, want, f"{name}.fit_predict({ev[2]})")
+            if got[0] == "ok":
+                m.fitted, m.fitdata = True, ev[2]
+                self.touch_shared(model, m, ev[2])
+            else:
+                cont = False
             self.outputs.add(hashlib.md5(repr(got).encode()).hexdigest())
         elif kind == "fit":
             got = real(lambda: obj.fit(DATA[ev[2]]) and None)
@@ -612,7 +624,7 @@ def shards(tier, seed):
 def bounds(tier, seed):
     return {"worlds": {w: {"depth": depth_for(w, tier)} for w in worlds()},
             "datasets": {k: list(v.shape) for k, v in DATA.items()},
-            "events": "per detector: fit/predict on each data set, transform, transform_scores, update(U), clone, get_params; per scorer: fit on each data set, evaluate(fixed valid cuts), clone (stand-alone), get_params; set_params menu per world incl. nested keys and scorer replacement"}
+            "events": "per detector: fit/predict on each data set, fit_predict on two, transform, transform_scores, update(U), clone, get_params; per scorer: fit on each data set, evaluate(fixed valid cuts), clone (stand-alone), get_params; set_params menu per world incl. nested keys and scorer replacement"}
 
 
 def run_shard(shard):
